@@ -605,7 +605,8 @@ def make_zids_unique(pages: list) -> None:
 
 
 @st.composite
-def directory(draw, n_min=1, n_max=3, rich=True, max_headers=3, all_zids=False, plain_scopes=False):
+def directory(draw, n_min=1, n_max=3, rich=True, max_headers=3, all_zids=False, plain_scopes=False,
+              canonical_spacing=False):
     names = draw(st.lists(st.sampled_from(["a", "b", "ab", "notes", "sub/a", "sub/c", "p_1", "x", "2024/log"]),
                           min_size=n_min, max_size=n_max, unique=True))
     pages = [draw(page(rich=rich, max_headers=max_headers, plain_scopes=plain_scopes)) for _ in names]
@@ -615,5 +616,9 @@ def directory(draw, n_min=1, n_max=3, rich=True, max_headers=3, all_zids=False, 
                 if not it["zid"]:
                     it["zid"] = "240510#00"
                     it["longdate"] = None
+    if canonical_spacing:
+        for pg in pages:
+            for it in iter_items(pg):
+                it["gap"] = 1
     make_zids_unique(pages)
     return {n + ".zo": pg for n, pg in zip(names, pages)}
